@@ -26,6 +26,13 @@ func runC15(c *Ctx) {
 	})
 	c.Min("C15-R1", 100)
 
+	c.Rule("C15-R1b", "the pool lock (and every other mutex of package core) is released on every non-panic exit", func() {
+		f, o := c.LockPairingRule("C15-R1b", []string{"core"}, nil, map[string]string{})
+		c.Extra["lock_pairing_functions"] = f
+		c.Extra["lock_pairing_operations"] = o
+	})
+	c.Min("C15-R1b", 20)
+
 	c.Rule("C15-R2", "admission, replacement and affordability guards", func() {
 		vt := c.Fn("core:(*TxPool).validateTx")
 		from := `types\.Sender\(TxPool#0\.signer, Transaction#0\)#0`
